@@ -563,6 +563,8 @@ func (g *G) item(depth int, budget *int) stackitem.Item {
 // (tree) items around the serialisation limit: the serialiser caches the bytes and the item count of a compound
 // it has already written (serialization.go `seen`), which must charge every reference in full.
 func (g *G) sharedItem() stackitem.Item {
+	defer func(big bool) { g.big = big }(g.big)
+	g.big = false // the shared object is copied up to 2048 times in the serialisation
 	var inner stackitem.Item
 	k := g.r.Intn(4) // size of the shared object
 	switch g.r.Intn(3) {
